@@ -194,8 +194,23 @@ static std::string roundtrip(const cif::Document& d, const cif::WriteOptions& o,
   return "ok";
 }
 
+// the `value` rule of cif.hpp in isolation: one arbitrary byte first (a '\n' makes bol true), then rules::value
+struct lexprobe : cif::pegtl::seq<cif::pegtl::any, cif::rules::value> {};
+template<typename Rule> struct NoAction : cif::pegtl::nothing<Rule> {};
+
 static std::string handle(const std::string& cmd, const std::string& args) {
   std::vector<std::string> w = words(args);
+  if (cmd == "lex") {          // bol hex: OK <token length> | NO | ERR
+    bool bol = to_ll(w.at(0)) != 0;
+    std::string text = (bol ? "\n" : " ") + hex_decode(w.at(1));
+    cif::pegtl::memory_input<> in(text.data(), text.size(), "lex");
+    try {
+      bool ok = cif::pegtl::parse<lexprobe, NoAction, cif::Errors>(in);
+      return ok ? "OK " + std::to_string(in.byte() - 1) : std::string("NO");
+    } catch (cif::pegtl::parse_error&) {
+      return "ERR";
+    }
+  }
   if (cmd == "q") {            // is_null is_text_field as_string quote
     std::string s = hex_decode(w.at(0));
     std::string as;
